@@ -113,7 +113,7 @@ Record Inv (c : cfg) (all : list msg) (s : bstate) : Prop := {
       b_out s = wr cnt ++ ns /\ forallb is_notif ns = true /\
       Forall2 RM cnt (answerable (firstn k all)) /\
       length (b_done s) <= k /\ k <= length all /\
-      (k < length all -> before_write (b_ppc s) = false /\ c_cancel_first c = true);
+      (k < length all -> before_write (b_ppc s) = false /\ c_write_on_cancel c = true);
   inv_pc :
     match b_ppc s with
     | PExec m => exists rest, b_calls s = m :: rest
@@ -127,24 +127,24 @@ Record Inv (c : cfg) (all : list msg) (s : bstate) : Prop := {
   inv_owner :
     Forall (fun n => In (n_msg n) (b_done s ++ cur (b_ppc s))) (b_notifiers s);
   inv_notif : forall m q, In (WNotif m q) (b_out s) -> In m (b_done s);
-  inv_cancel : b_cancelled s = true -> c_cancel_first c = false -> b_wrote s = true;
+  inv_ok :
+    b_ppc s = PWriteOk ->
+    b_wrote s = true \/ b_calls s = [] \/ c_write_on_cancel c = true;
   inv_stop :
     at_stop (b_ppc s) = true ->
-    b_wrote s = true \/ b_calls s = [] \/ b_cancelled s = true;
-  inv_mid : b_tpc s = TMid -> c_cancel_first c = false -> b_wrote s = true
+    b_wrote s = true \/ b_calls s = [] \/ b_cancelled s = true
 }.
 
 Lemma inv_init c calls : Inv c calls (binit c calls).
 Proof.
   constructor; cbn; auto; try discriminate.
-  - intros _. split; auto. constructor.
-  - destruct (c_timeout c); discriminate.
+  intros _. split; auto. constructor.
 Qed.
 
 (* once written, the wire content of the batch never changes: only notifications
    are appended *)
 Ltac inv_destruct I :=
-  destruct I as [Isplit Iunw Iwr Ipc Iafter Iinact Iowner Inotif Icancel Istop Imid]; cbn in *.
+  destruct I as [Isplit Iunw Iwr Ipc Iafter Iinact Iowner Inotif Iok Istop]; cbn in *.
 
 (* respondWithError on an unwritten buffer writes a response for every answerable
    entry of the whole batch *)
@@ -222,6 +222,7 @@ Proof.
         rewrite app_nil_r; exact Iowner.
     + intros m' q HI. apply in_or_app. left. eauto.
     + match goal with |- context [if ?b then PTooLarge else PCheck] => destruct b end; cbn; discriminate.
+    + match goal with |- context [if ?b then PTooLarge else PCheck] => destruct b end; cbn; discriminate.
   - (* PTooLarge *)
     inversion H; subst; clear H. inv_destruct I.
     unfold respond_with_error, do_write, set_ppc. cbn.
@@ -237,23 +238,37 @@ Proof.
       * intros m' q HI. exfalso. eapply (wr_notif_free _ m' q). rewrite <- wr_match. exact HI.
   - (* PStop *)
     inversion H; subst; clear H. inv_destruct I. easy_fields Iwr.
-    destruct tp; cbn; auto; discriminate.
-  - (* PWrite *)
+  - (* PWrite: the test of batchCtx.Err() *)
+    inversion H; subst; clear H. inv_destruct I.
+    destruct (c_write_on_cancel c) eqn:WC; cbn; [easy_fields Iwr|].
+    destruct canc; cbn; easy_fields Iwr.
+    intros _. destruct (Istop eq_refl) as [?|[?|?]]; auto; discriminate.
+  - (* PRespondC *)
+    inversion H; subst; clear H. inv_destruct I.
+    unfold respond_with_error, do_write, set_ppc. cbn.
+    destruct wrote; cbn.
+    + easy_fields Iwr.
+    + destruct (Iunw eq_refl) as (-> & HR).
+      easy_fields0.
+      * intros _. rewrite wr_match.
+        eexists _, (length all), []. rewrite app_nil_r.
+        repeat split; auto; try lia;
+          try (eapply respond_content; eauto; discriminate);
+          try (rewrite Isplit, app_length; lia).
+      * intros m' q HI. exfalso. eapply (wr_notif_free _ m' q). rewrite <- wr_match. exact HI.
+  - (* PWriteOk *)
     inversion H; subst; clear H. inv_destruct I.
     unfold do_write, set_ppc. cbn. destruct wrote; cbn.
     + easy_fields Iwr.
     + destruct (Iunw eq_refl) as (-> & HR).
-      easy_fields Iwr.
+      easy_fields0.
       * intros _. rewrite wr_match.
         exists resp, (length done), []. rewrite app_nil_r.
-        assert (Hcalls : c_cancel_first c = false -> calls = []).
-        { intros CF. destruct (Istop eq_refl) as [?|[?|Hc]]; auto; try discriminate.
-          specialize (Icancel Hc CF). discriminate. }
         repeat split; auto.
         -- rewrite Isplit, firstn_app, firstn_all, Nat.sub_diag. cbn. rewrite app_nil_r. exact HR.
         -- rewrite Isplit, app_length. lia.
-        -- destruct (c_cancel_first c) eqn:CF; auto.
-           rewrite (Hcalls eq_refl) in *. rewrite Isplit, app_length in H. cbn in H. lia.
+        -- destruct (Iok eq_refl) as [?|[Hc|?]]; auto; try discriminate.
+           rewrite Hc in *. rewrite Isplit, app_length in H. cbn in H. lia.
       * intros m' q HI. exfalso. eapply (wr_notif_free _ m' q). rewrite <- wr_match. exact HI.
   - (* PActivate *)
     inv_destruct I. specialize (Iafter eq_refl). subst wrote.
@@ -279,7 +294,7 @@ Proof.
     inversion H; subst; clear H; inv_destruct I;
     unfold respond_with_error, do_write, set_tpc, set_cancelled; cbn.
   - (* TIdle, cancel first: cancel() *)
-    easy_fields Iwr; intros; congruence.
+    easy_fields Iwr.
   - (* TIdle, respond first *)
     destruct wrote; cbn.
     + easy_fields Iwr.
@@ -331,9 +346,16 @@ Proof.
     rewrite E, app_nil_r in Ho. exact Ho.
 Qed.
 
+Lemma inv_xstep c all s : Inv c all s -> Inv c all (set_cancelled s).
+Proof.
+  intros I. destruct s as [calls resp wrote canc bytes pp tp nots out done].
+  inv_destruct I. unfold set_cancelled. cbn. easy_fields Iwr.
+Qed.
+
 Lemma inv_bstep c all t s s' : Inv c all s -> bstep c t s = Some s' -> Inv c all s'.
 Proof.
   destruct t; cbn; eauto using inv_pstep, inv_tstep, inv_estep.
+  intros I H. inversion H; subst. apply inv_xstep; auto.
 Qed.
 
 Lemma inv_reach c calls s : breach c (binit c calls) s -> Inv c calls s.
@@ -395,12 +417,13 @@ Proof.
   - destruct (inv_unwritten _ _ _ I W) as (-> & _). exists [], 0. split; auto. constructor.
 Qed.
 
-(* completeness for the code as it is (respondWithError before cancel): in every
-   interleaving, when the batch is over exactly one reply was written (none if
+(* completeness for the code as it is (after the loop: respondWithError if the context
+   is cancelled, else write), for either order inside the timer callback and with the
+   context cancelled by an external event (TX) at any point: in every interleaving, when the batch is over exactly one reply was written (none if
    nothing is answerable) and it holds exactly one response per answerable entry
    of the whole batch, in order *)
 Lemma batch_exactly_one_per_call c calls s :
-  c_cancel_first c = false ->
+  c_write_on_cancel c = false ->
   breach c (binit c calls) s -> bfinal s = true ->
   exists cnt, batches (b_out s) = match cnt with [] => [] | _ => [cnt] end /\
               singles (b_out s) = [] /\
@@ -439,23 +462,22 @@ Lemma batch_write_frozen c t s s' :
   b_wrote s' = true /\ exists ns, b_out s' = b_out s ++ ns /\ forallb is_notif ns = true.
 Proof.
   intros W H. destruct s as [calls resp wrote canc bytes pp tp nots out done].
-  cbn in W. subst wrote. destruct t; cbn in H.
-  - unfold pstep in H. cbn in H. destruct pp; try discriminate.
-    + inversion H; subst. cbn. split; auto. exists []. rewrite app_nil_r. auto.
-    + destruct calls; inversion H; subst; cbn; split; auto; exists []; rewrite app_nil_r; auto.
-    + inversion H; subst. cbn. split; auto. exists []. rewrite app_nil_r. auto.
-    + destruct calls; inversion H; subst; cbn; split; auto; exists []; rewrite app_nil_r; auto.
-    + inversion H; subst. cbn. split; auto. exists []. rewrite app_nil_r. auto.
-    + inversion H; subst. cbn. split; auto. exists []. rewrite app_nil_r. auto.
-    + inversion H; subst. cbn. split; auto. exists []. rewrite app_nil_r. auto.
+  cbn in W. subst wrote.
+  assert (Triv : forall o : list wevent, exists ns, o = o ++ ns /\ forallb is_notif ns = true)
+    by (intros o; exists []; rewrite app_nil_r; auto).
+  destruct t; cbn in H.
+  - unfold pstep in H. cbn in H. destruct pp; try discriminate;
+      try (inversion H; subst; cbn; split; auto; fail).
+    + destruct calls; inversion H; subst; cbn; split; auto.
+    + destruct calls; inversion H; subst; cbn; split; auto.
     + destruct (nth_error nots j); inversion H; subst; cbn; split; auto.
-      * eexists; split; eauto using notifs_activate_out.
-      * exists []. rewrite app_nil_r. auto.
+      eexists; split; eauto using notifs_activate_out.
   - unfold tstep in H. cbn in H.
     destruct tp; try discriminate; destruct (c_cancel_first c); inversion H; subst; cbn;
-      split; auto; exists []; rewrite app_nil_r; auto.
+      split; auto.
   - unfold estep in H. cbn in H. destruct (nth_error nots i); inversion H; subst; cbn.
     split; auto. eexists; split; eauto using notifs_notify_out.
+  - inversion H; subst; cbn. split; auto.
 Qed.
 
 (* what the timer's respondWithError writes on an unwritten buffer: the responses
@@ -541,23 +563,40 @@ Qed.
    calls; the first finishes; the timer cancels; the processor sees the cancellation,
    leaves the loop and writes [r1]; the timer's respondWithError is then a no-op *)
 Definition wit_call (i : N) : msg := mkMsg true (IdVal true i) MPlain false false false 0 1 None.
-Definition wit_cfg (cancel_first : bool) : cfg := mkCfg 0 0 43 true cancel_first.
+Definition wit_cfg (cancel_first write_on_cancel : bool) : cfg :=
+  mkCfg 0 0 43 true cancel_first write_on_cancel false.
 Definition wit_schedule : list tid :=
   [TP; TP; TP; TP;    (* check, nextCall, exec call 1, pushResponse *)
    TT;                (* timer: first action *)
-   TP; TP; TP;        (* check (sees cancellation iff cancel came first) ... *)
+   TP; TP; TP; TP;    (* check (sees the cancellation), timer.Stop, Err() test, write *)
    TT;                (* timer: second action *)
    TP; TP; TP; TP; TP; TP; TP; TP; TP; TP].
 
 Lemma batch_cancel_first_refuted :
   exists c calls sch,
-    c_cancel_first c = true /\
+    c_cancel_first c = true /\ c_write_on_cancel c = true /\
     let s := brun c sch (binit c calls) in
     bfinal s = true /\
     answerable calls = calls /\ length calls = 2 /\
     batches (b_out s) = [[mkResp (RCopy (IdVal true 1)) 0]].
 Proof.
-  exists (wit_cfg true), [wit_call 1; wit_call 2], wit_schedule.
+  exists (wit_cfg true true), [wit_call 1; wit_call 2], wit_schedule.
+  vm_compute. repeat split; reflexivity.
+Qed.
+
+(* with the old unconditional write() an external cancellation loses responses even with
+   the repaired timer order and no timer at all: the first call finishes, the context is
+   cancelled from outside, the processor leaves the loop and writes [r1] *)
+Lemma batch_external_cancel_refuted :
+  exists c calls sch,
+    c_cancel_first c = false /\ c_write_on_cancel c = true /\ c_timeout c = false /\
+    let s := brun c sch (binit c calls) in
+    bfinal s = true /\
+    answerable calls = calls /\ length calls = 2 /\
+    batches (b_out s) = [[mkResp (RCopy (IdVal true 1)) 0]].
+Proof.
+  exists (mkCfg 0 0 43 false false true false), [wit_call 1; wit_call 2],
+         ([TP; TP; TP; TP; TX] ++ repeat TP 10).
   vm_compute. repeat split; reflexivity.
 Qed.
 
@@ -575,7 +614,8 @@ Record SInv (c : cfg) (m : msg) (s : sstate) : Prop := {
     exists ns, forallb is_notif ns = true /\
       ((s_out s = WSingle (handle_call_msg m) :: ns /\ is_notification m = false) \/
        (s_out s = ns /\ is_notification m = true) \/
-       (s_out s = WSingle (error_response m E_TIMEOUT) :: ns /\ s_tpc s = TDone));
+       (s_out s = WSingle (error_response m E_TIMEOUT) :: ns /\ s_tpc s = TDone /\
+        (is_notification m = false \/ c_notif_timeout_reply c = true)));
   sinv_after : sbefore (s_spc s) = false -> s_responded s = true;
   sinv_inactive :
     sbefore (s_spc s) = true -> Forall (fun n => n_activated n = false) (s_notifiers s);
@@ -597,10 +637,10 @@ Ltac sinv_destruct I := destruct I as [Iun Ire Iaf Iin Ipc Int]; cbn in *.
 
 Ltac keep_resp Ire :=
   let W := fresh "W" in let ns := fresh "ns" in
-  intros W; destruct (Ire W) as (ns & ? & [[? ?]|[[? ?]|[? ?]]]);
+  intros W; destruct (Ire W) as (ns & ? & [[? ?]|[[? ?]|(? & ? & ?)]]);
   exists ns; split; auto.
 
-Lemma sinv_step c m t s s' : SInv c m s -> sstep m t s = Some s' -> SInv c m s'.
+Lemma sinv_step c m t s s' : SInv c m s -> sstep c m t s = Some s' -> SInv c m s'.
 Proof.
   intros I H. destruct s as [rsp canc pc tp nots out]. destruct t; cbn in H.
   - (* processor *)
@@ -612,7 +652,7 @@ Proof.
       destruct (m_sub m) as [[? ?]|]; constructor; cbn; auto.
     + inversion H; subst; clear H. sinv_destruct I. subst r.
       constructor; cbn; auto; try discriminate.
-      * intros W. destruct (Ire W) as (ns & ? & [[? ?]|[[? ?]|[? ?]]]); exists ns; split; auto.
+      * intros W. destruct (Ire W) as (ns & ? & [[? ?]|[[? ?]|(? & ? & ?)]]); exists ns; split; auto.
         subst tp. cbn. auto.
       * intros T. rewrite (Int T). reflexivity.
     + inversion H; subst; clear H. sinv_destruct I. subst r.
@@ -625,7 +665,7 @@ Proof.
     + sinv_destruct I. specialize (Iaf eq_refl). subst rsp.
       destruct (nth_error nots j) as [n|] eqn:En; inversion H; subst; clear H.
       * constructor; cbn; auto; try discriminate.
-        intros _. destruct (Ire eq_refl) as (ns & ? & [[-> ?]|[[-> ?]|[-> ?]]]);
+        intros _. destruct (Ire eq_refl) as (ns & ? & [[-> ?]|[[-> ?]|(-> & ? & ?)]]);
           exists (ns ++ activate_out n); (split; [auto using forallb_app_true, notifs_activate_out|]); auto.
       * constructor; cbn; auto; try discriminate.
     + discriminate.
@@ -633,18 +673,20 @@ Proof.
     unfold ststep in H. cbn in H. destruct tp; try discriminate.
     + inversion H; subst; clear H. sinv_destruct I.
       constructor; cbn; auto; try discriminate.
-      * intros W. destruct (Ire W) as (ns & ? & [[? ?]|[[? ?]|[? ?]]]); try discriminate;
+      * intros W. destruct (Ire W) as (ns & ? & [[? ?]|[[? ?]|(? & ? & ?)]]); try discriminate;
           exists ns; split; auto.
       * intros T. specialize (Int T). discriminate.
     + inversion H; subst; clear H. sinv_destruct I.
       unfold once_write, sset_tpc. cbn. destruct rsp; cbn.
       * constructor; cbn; auto; try discriminate.
-        -- intros W. destruct (Ire W) as (ns & ? & [[? ?]|[[? ?]|[? ?]]]); try discriminate;
+        -- intros W. destruct (Ire W) as (ns & ? & [[? ?]|[[? ?]|(? & ? & ?)]]); try discriminate;
              exists ns; split; auto.
         -- intros T. specialize (Int T). discriminate.
       * rewrite (Iun eq_refl).
         constructor; cbn; auto; try discriminate.
         -- intros _. exists []. split; auto.
+           destruct (is_notification m) eqn:N; destruct (c_notif_timeout_reply c) eqn:Fl;
+             cbn; auto 8.
         -- intros T. specialize (Int T). discriminate.
   - (* Notify *)
     unfold sestep in H. cbn in H.
@@ -656,13 +698,16 @@ Proof.
     constructor; cbn; auto.
     + intros W. rewrite (Iun W). unfold notify_out. destruct (n_activated n) eqn:A; auto.
       specialize (Iaf (Hact eq_refl)). congruence.
-    + intros W. destruct (Ire W) as (ns & ? & [[-> ?]|[[-> ?]|[-> ?]]]);
+    + intros W. destruct (Ire W) as (ns & ? & [[-> ?]|[[-> ?]|(-> & ? & ?)]]);
         exists (ns ++ notify_out n); (split; [auto using forallb_app_true, notifs_notify_out|]); auto.
     + intros B. apply Forall_upd_nth; auto.
       intros x Hx. unfold notify_upd. rewrite Hx. reflexivity.
+  - (* external cancellation *)
+    inversion H; subst; clear H. sinv_destruct I.
+    constructor; cbn; auto.
 Qed.
 
-Lemma sinv_reach c m s : sreach m (sinit c) s -> SInv c m s.
+Lemma sinv_reach c m s : sreach c m (sinit c) s -> SInv c m s.
 Proof.
   remember (sinit c) as s0. induction 1; subst.
   - apply sinv_init.
@@ -681,7 +726,7 @@ Proof. intros H. change (singles (WSingle r :: ns)) with (r :: singles ns). rewr
 (* a single non-notification message is answered exactly once, in every
    interleaving of the handler goroutine and the timer *)
 Lemma single_exactly_once c m s :
-  sreach m (sinit c) s -> sfinal s = true -> is_notification m = false ->
+  sreach c m (sinit c) s -> sfinal s = true -> is_notification m = false ->
   exists r ns, s_out s = WSingle r :: ns /\ forallb is_notif ns = true /\
                singles (s_out s) = [r] /\ RM r m.
 Proof.
@@ -700,31 +745,43 @@ Qed.
 (* a single notification gets no reply — when no request timeout is configured *)
 Lemma single_notification_no_reply_partial c m s :
   c_timeout c = false ->
-  sreach m (sinit c) s -> is_notification m = true -> singles (s_out s) = [].
+  sreach c m (sinit c) s -> is_notification m = true -> singles (s_out s) = [].
 Proof.
   intros T R N. pose proof (sinv_reach _ _ _ R) as I.
   destruct (s_responded s) eqn:W.
-  - destruct (sinv_resp _ _ _ I W) as (ns & Hn & [[_ N']|[[E _]|[_ E]]]); [congruence | |].
+  - destruct (sinv_resp _ _ _ I W) as (ns & Hn & [[_ N']|[[E _]|(_ & E & _)]]); [congruence | |].
     + rewrite E. auto using singles_notifs.
     + rewrite (sinv_notimer _ _ _ I T) in E. discriminate.
   - rewrite (sinv_unresp _ _ _ I W). reflexivity.
 Qed.
 
-(* ... and with a timeout the timer callback replies to a notification *)
+(* the code as it is now: a single notification never gets a reply, whatever the timer does *)
+Lemma single_notification_no_reply c m s :
+  c_notif_timeout_reply c = false ->
+  sreach c m (sinit c) s -> is_notification m = true -> singles (s_out s) = [].
+Proof.
+  intros Fl R N. pose proof (sinv_reach _ _ _ R) as I.
+  destruct (s_responded s) eqn:W.
+  - destruct (sinv_resp _ _ _ I W) as (ns & Hn & [[_ N']|[[E _]|(_ & _ & [N'|Fl'])]]); try congruence.
+    rewrite E. auto using singles_notifs.
+  - rewrite (sinv_unresp _ _ _ I W). reflexivity.
+Qed.
+
+(* ... while the code before commit 947a0e3339 replied to a notification on timeout *)
 Definition wit_notification : msg := mkMsg true IdAbsent MPlain false false false 0 1 None.
 
 Lemma single_notification_timeout_refuted :
   exists c m sch,
-    is_notification m = true /\
-    let s := srun m sch (sinit c) in
+    c_notif_timeout_reply c = true /\ is_notification m = true /\
+    let s := srun c m sch (sinit c) in
     sfinal s = true /\ singles (s_out s) = [error_response m E_TIMEOUT].
 Proof.
-  exists (wit_cfg false), wit_notification, [TT; TT; TP; TP; TP; TP; TP].
+  exists (mkCfg 0 0 43 true false false true), wit_notification, [TT; TT; TP; TP; TP; TP; TP].
   vm_compute. repeat split; reflexivity.
 Qed.
 
 Lemma single_notifications_after_response c m s pre m' q post :
-  sreach m (sinit c) s ->
+  sreach c m (sinit c) s ->
   s_out s = pre ++ WNotif m' q :: post -> is_notification m = false ->
   exists r pre', pre = WSingle r :: pre' /\ RM r m.
 Proof.
@@ -737,10 +794,10 @@ Proof.
   - exists (error_response m E_TIMEOUT), pre'. split; auto. apply RM_error_response. discriminate.
 Qed.
 
-Lemma srun_reach m sch s : sreach m s (srun m sch s).
+Lemma srun_reach c m sch s : sreach c m s (srun c m sch s).
 Proof.
-  assert (G : forall s0, sreach m s0 s -> sreach m s0 (srun m sch s)).
+  assert (G : forall s0, sreach c m s0 s -> sreach c m s0 (srun c m sch s)).
   { revert s. induction sch as [|t r IH]; cbn; intros s s0 H; auto.
-    destruct (sstep m t s) eqn:E; auto. apply IH. econstructor; eauto. }
+    destruct (sstep c m t s) eqn:E; auto. apply IH. econstructor; eauto. }
   apply G. constructor.
 Qed.
